@@ -24,8 +24,8 @@ Step ==
       [] e.ev = "Pos"      -> PosOp(e.r, Br)
       [] e.ev = "Move"     -> Move(e.n, Br)
       [] e.ev = "Rewind"   -> Rewind(e.m, Br)
-      [] e.ev = "Lexeme"   -> Lexeme(e.id, e.n, e.same, Br)
-      [] e.ev = "Shift"    -> Shift(e.id, e.n, e.same, Br)
+      [] e.ev = "Lexeme"   -> Lexeme(e.id, e.n, e.same, e.watch, Br)
+      [] e.ev = "Shift"    -> Shift(e.id, e.n, e.same, e.watch, Br)
       [] e.ev = "Skip"     -> Skip(Br)
       [] e.ev = "Free"     -> Free(e.n, Br)
       [] e.ev = "ShiftLen" -> ShiftLen(e.r, Br)
